@@ -233,6 +233,16 @@ def explore_c04(rng, tier, res, deep=False):
     for sp in odd:
         qs.update([f"$[?@.a=={sp}]", f"$[?{sp}<@]", f"$[?@=={sp}&&@.b]", f"$[?length(@)>={sp}]", f"$[?match(@.a,{sp})]", f"$[{sp}]", f"$[{sp}:]", f"$[:{sp}]",
                    f"$[::{sp}]", f"$[?@[{sp}]]", f"$..[{sp}]"])
+    # two operator tokens with blank space BETWEEN them ('! !', '& &', '= =', '! =', '&& ||', '! <' ...): a check that
+    # looks at the adjacent character (or an adjacent token) does not see the second one; in prefix, infix and
+    # argument positions
+    ops2 = ["!", "&&", "||", "==", "!=", "<", "<=", ">", ">=", "&", "|", "=", ",", ":", "?", "."]
+    for a in ops2:
+        for b in ops2:
+            for bl in (" ", "\t", "\n", "\r\n", "  "):
+                x = a + bl + b
+                qs.update([f"$[?{x}@.a]", f"$[?@.a {x} @.b]", f"$[?@.a && {x}@.b]", f"$[?{x}(@.a)]", f"$[?@.a=={x}@.b]",
+                           f"$[?count(@.*) == 1 || {x}match(@.b, 'x')]", f"$[?length({x}@.a) == 1]", f"$[?{x} {x}@.a]"])
     qs = sorted(qs)
     compile_cases(res, FULL_ENV, qs, "C04", want="invalid")
 
@@ -517,6 +527,24 @@ def explore_c13(rng, tier, res, deep=False):
     for nf_ in numforms:
         for pl in numplaces:
             qs.add(pl.replace("{}", nf_))
+    # calls of every built-in with too few, the right number and TOO MANY arguments, every position (the surplus ones
+    # included) taking every argument shape — literal, singular / non-singular query, parenthesised or negated logical
+    # expression, nested call, keyword: whatever order the arity / parenthesis / type checks run in, the outcome is a
+    # query or a JSONPathError
+    shapes = ["@.a", "1", "'x'", "(@.a)", "(@.a && @.b)", "!@.a", "(@.b == 1)", "((@.a))", "@.*", "count(@.*)", "$", "true", "(1)", "!(@.a)", "nope(@.a)", "length((@.a))"]
+    for fname, arity in (("length", 1), ("count", 1), ("value", 1), ("match", 2), ("search", 2)):
+        for k in range(0, arity + 3):
+            for i in range(max(k, 1)):
+                for sh in shapes:
+                    args = ["@.a"] * k
+                    if k:
+                        args[i] = sh
+                    for j in ({i, k - 1} if k else {0}):
+                        a2 = list(args)
+                        if k and j != i:
+                            a2[j] = "(@.b)"
+                        call = f"{fname}({', '.join(a2)})"
+                        qs.update([f"$[?{call}]", f"$[?{call} == 1]", f"$[?@.x && !{call}]", f"$[?count(@[?{call}]) > 0]"])
     qs = sorted(q for q in qs if len(q) <= 1024)
     env = real.make_env(FULL_ENV)
     reals, out = compile_cases(res, FULL_ENV, qs, "C13")
@@ -1024,6 +1052,17 @@ def literal_pool(rng, tier):
     for cp in list(range(0, 0x20)) + [0x7F, 0x85, 0x2028, 0x2029]:
         c = chr(cp)
         bodies += ["ab" + c, c + "ab", "a" + c + "b", "ab" + c + c, "\u00e9" + c, "a b" + c, "a" + c]
+    # code points that codecs treat specially (byte order marks U+FEFF / U+FFFE, U+FFFF, U+FFFD, U+0000, the last and
+    # first scalar values around the surrogate block) at the START, in the middle and at the end of literals that also hold
+    # an escaped surrogate pair, an unpaired surrogate escape or plain text — raw and escaped: a decoder that round-trips
+    # through UTF-16/UTF-8 with BOM sniffing or error handlers changes or accepts these
+    special = [0xFEFF, 0xFFFE, 0xFFFF, 0xFFFD, 0x0000, 0xD7FF, 0xE000, 0x2028, 0xEF, 0xBB, 0xBF, 0xFF, 0xFE]
+    others = ["\\uD83D\\uDE00", "\\ud800\\udc00", "\\uDBFF\\uDFFF", "\\uD83D", "\\uDE00", "ab", "\\uD83Dab\\uDC00", "\U0001f600", ""]
+    for cp in special:
+        forms = ["\\u%04X" % cp] + ([chr(cp)] if cp >= 0x20 else [])
+        for f in forms:
+            for o in others:
+                bodies += [f + o, o + f, f + o + f, "a" + f + o, f + f + o]
     # sequences
     for _ in range(3000 if tier == "thorough" else 200):
         bodies.append("".join(rng.choice(bodies[:200] + ["a", "'", '"', "\\\\"]) for _ in range(rng.randint(2, 5))))
